@@ -65,8 +65,8 @@ MerlinEv == /\ pc = "run" /\ l <= NRec
 \* ---- the commitment MSM for A: bits interleaved with bits - 1, zero padding up to the table size ----------
 PMSMEv == /\ Is("PMSM") /\ pc = "run"
           /\ LET e == Rec[l] IN
-             /\ e.count = 1 /\ e.nstat = e.ntable /\ e.ndyn_s = e.ndyn_p /\ e.ndyn_s = cfg.t
-             /\ e.nstat = 2 * cfg.n * cfg.cap
+             \* (the independent prover does not go through a precomputed table: nothing to check for it here)
+             /\ cfg.reference \/ (e.count = 1 /\ e.nstat = e.ntable /\ e.ndyn_s = e.ndyn_p /\ e.ndyn_s = cfg.t /\ e.nstat = 2 * cfg.n * cfg.cap)
              /\ \A p \in 1..Len(e.stat) :
                   LET xx == e.stat[p][2] * cfg.n + e.stat[p][3] IN
                   /\ e.stat[p][1] \in {"Gi", "Hi"}
@@ -144,7 +144,7 @@ RngNonces == IF cfg.seeded THEN {pre.rr, pre.ss} ELSE {AllNonces[a] : a \in 1..L
 PProv == /\ pc = "prov"
          /\ \A a \in 1..Len(AllNonces) : AllNonces[a] # Zero21
          /\ \A a \in 1..Len(AllNonces) : \A b \in (a+1)..Len(AllNonces) : AllNonces[a] # AllNonces[b]
-         /\ LET last == FillsAfterU(AfterRound(K)) IN
+         /\ cfg.reference \/ LET last == FillsAfterU(AfterRound(K)) IN
             /\ pre.rr \in last /\ pre.ss \in last
             /\ IF cfg.seeded
                THEN /\ x.nc.alpha = cfg.nref.alpha /\ x.nc.dd = cfg.nref.d /\ x.nc.eta = cfg.nref.eta
